@@ -141,6 +141,9 @@ func (c *wsConn) nextWriter(cb func(io.Writer)) {
 	wcl, err := c.conn.NextWriter(websocket.TextMessage)
 	if err != nil {
 		log.Error("handle me:", err)
+		// the callback must still run: responders (lazyWriter) block until they
+		// have been handed a writer, and would leak their goroutine otherwise
+		cb(io.Discard)
 		return
 	}
 
